@@ -477,6 +477,42 @@ func c07Case(t *core.T, long bool) {
 			return
 		}
 	}
+	// the chain reorganises below blocks whose transactions the IMPORT recorded (not the live follower):
+	// what the rescan wrote must be as good a basis for a rollback as what live following writes
+	if h := int(n.Height()); h > 4 {
+		maxd := 6
+		if long {
+			maxd = 3
+		}
+		dd := t.R.Range(1, minInt(maxd, h-2))
+		var nb *sim.Block
+		var err error
+		if t.R.Chance(25) {
+			nb, _, err = wd.Revive(t.R.Range(0, 2))
+		}
+		if nb == nil && err == nil {
+			nb, _, err = wd.Fork(dd, dd+t.R.Range(0, 1), 2)
+		}
+		if err != nil {
+			t.Fatalf("fork after the import: %v", err)
+		}
+		if nb != nil {
+			w.Deliver(nb)
+			if b, err := wd.Extend(t.R.Range(0, 2)); err == nil {
+				w.Deliver(b)
+			}
+			if !wd.Settle() {
+				t.Inconclusive("handler not idle after the post-import reorganisation")
+				return
+			}
+			t.Eval(1)
+			if d := wd.CheckLedger(sim.CompareOpts{Histories: true}); len(d) > 0 {
+				reportLedgerDiffs(t, wd, d, "a reorganisation after the import")
+				return
+			}
+			t.Count("reorgs_after_the_import", 1)
+		}
+	}
 	t.Count("rescan_batches", batches)
 	t.Count("chain_changes_injected_while_rescan_open", len(injected))
 	t.Max("chain_height", int(n.Height()))
